@@ -367,7 +367,7 @@ def normalize_unpack_pair(case, impl, model):
     return norm(impl), norm(model)
 
 
-def fault_points(ty, cfg, path=(), vtag=""):
+def fault_points(ty, cfg, path=(), vtag="", extra=False, via_ptr=False):
     """all (path, kind, replacement GoData) at which one setting of cfg can be made faulty for a target of type ty"""
     out = []
     t = ty["t"]
@@ -400,7 +400,7 @@ def fault_points(ty, cfg, path=(), vtag=""):
     if t == "ptr":
         if ty["e"]["t"] == "regexp":
             return [(path, "unparsable", S("(unclosed"))]
-        return fault_points(ty["e"], cfg, path, vtag)
+        return fault_points(ty["e"], cfg, path, vtag, extra, True)
     if t in ("slice", "array") and isinstance(cfg, dict) and "a" in cfg:
         if t == "array":
             out.append((path, "array-size", A(cfg["a"] + cfg["a"][:1] if cfg["a"] else [U(1)])))
@@ -412,7 +412,7 @@ def fault_points(ty, cfg, path=(), vtag=""):
         if t == "slice" and ("required" in vtag or "nonzero" in vtag):
             out.append((path, "validator-empty-list", A([])))
         for i, x in enumerate(cfg["a"]):
-            out += fault_points(ty["e"], x, path + (str(i),))
+            out += fault_points(ty["e"], x, path + (str(i),), "", extra)
         if ty["e"]["t"] == "struct" and cfg["a"]:
             out.append((path + ("0",), "not-object", S("oops")))
         return out
@@ -421,11 +421,24 @@ def fault_points(ty, cfg, path=(), vtag=""):
         if "required" in vtag or "nonzero" in vtag:
             out.append((path, "validator-empty-map", M([])))
         for k, x in cfg["m"]:
-            out += fault_points(ty["e"], x, path + (k,))
+            out += fault_points(ty["e"], x, path + (k,), "", extra)
         return out
     if t == "struct" and isinstance(cfg, dict) and "m" in cfg:
         if path:
             out.append((path, "not-object", S("oops")))
+            # an explicit null for the struct: it is still initialised, and a field that must not stay zero fails - below the
+            # null setting, whose name is part of the path
+            for f in (ty["f"] if extra and not via_ptr else []):
+                fo = tag_opts(f)
+                if "ignore" in fo or "inline" in fo or f["ty"]["t"] not in PRIM_KINDS:
+                    continue
+                if any(w in f["v"] for w in ("required", "nonzero")) or f["v"].replace(" ", "") in ("min=1", "min=2", "min=3", "min=4"):
+                    if f["ty"]["t"] != "bool":
+                        out.append((path, "null-struct:" + field_key(f), None))
+                        # ... and the same with the struct's setting left out altogether (only directly below structs: a map
+                        # entry or list element that is left out does not exist)
+                        out.append((path, "absent-struct:" + field_key(f), {"__drop__": True}))
+                        break
         d = dict((k, v) for k, v in cfg["m"])
         for f in ty["f"]:
             opts = tag_opts(f)
@@ -434,11 +447,11 @@ def fault_points(ty, cfg, path=(), vtag=""):
             if "inline" in opts:
                 inner = f["ty"]["e"] if f["ty"]["t"] == "ptr" else f["ty"]
                 if inner["t"] == "struct":
-                    out += [p for p in fault_points(inner, cfg, path) if p[1] != "not-object" or p[0] != path]
+                    out += [p for p in fault_points(inner, cfg, path, "", extra) if p[1] != "not-object" or p[0] != path]
                 continue
             key = field_key(f)
             if key in d:
-                out += fault_points(f["ty"], d[key], path + (key,), f["v"])
+                out += fault_points(f["ty"], d[key], path + (key,), f["v"], extra)
         return out
     return out
 
